@@ -23,7 +23,7 @@ ENC_NUM = {"raw": 0, "rre": 2, "corre": 4, "hextile": 5, "zlib": 6, "tight": 7, 
            "zywrle": 17, "tightpng": -260}
 # encodings whose byte stream the mirror model predicts (exact diff); everything is checked by the
 # spec-decoder oracle as well.  Tight: the LastRect solid-area search is not modelled (oracle only)
-MODELLED = {"raw", "rre", "corre", "hextile", "zlib", "ultra", "zrle", "tight"}
+MODELLED = {"raw", "rre", "corre", "hextile", "zlib", "ultra", "zrle", "tight", "default"}
 # encodings the spec decoder handles
 DECODABLE = {0, 2, 4, 5, 6, 7, 9, 16}
 
@@ -93,15 +93,32 @@ def source_variant():
         t1 = open(os.path.join(vlib.REPO, "src/libvncserver/zrleencodetemplate.c")).read()
         t2 = open(os.path.join(vlib.REPO, "src/libvncserver/zrle.c")).read()
     except OSError:
-        return (0, 0)
+        return (0, 0, 0)
     m = re.search(r"zrleOutStreamWriteBytes\(os,\s*\(zrle_U8\s*\*\)data,\s*w\*h\*\((\w+)/8\)\)", t1)
     f1 = 1 if (m and m.group(1) == "BPPOUT") else 0
     m = re.search(r"fitsInLS3Bytes\s*=\s*\(\((.*?)<<", t2, flags=re.S)
     f2 = 1 if (m and ("uint32_t" in m.group(1) or "unsigned" in m.group(1))) else 0
-    return (f1, f2)
+    try:
+        t3 = open(os.path.join(vlib.REPO, "src/libvncserver/tight.c")).read()
+        pos = t3.find("cl->tightUsePixelFormat24 = TRUE")
+        cond = t3[t3.rfind("if", 0, pos):pos] if pos >= 0 else ""
+        f7 = 1 if ("bitsPerPixel" in cond and "trueColour" in cond) else 0
+    except OSError:
+        f7 = 0
+    return (f1, f2, f7)
 
 
-VARIANT = (0, 0)
+def pack24_swaps():
+    """notes/fix_C01_4.diff applied? (Pack24 brings the pixel to host order instead of using 24 - shift)"""
+    try:
+        t = open(os.path.join(vlib.REPO, "src/libvncserver/tight.c")).read()
+    except OSError:
+        return False
+    pos = t.find("static void Pack24(")
+    return pos >= 0 and "Swap32" in t[pos:pos + 1200]
+
+
+VARIANT = (0, 0, 0)
 
 
 def sint32(v):
@@ -111,6 +128,11 @@ def sint32(v):
 def fmt_class(enc, f):
     """classes of client formats in which the ZRLE encoder is known to misbehave (findings F1-F3)"""
     bpp, depth, be, tc, rmax, gmax, bmax, rs, gs, bs = f
+    if enc == "tight" and depth == 24 and rmax == gmax == bmax == 255:
+        if bpp != 32 and not VARIANT[2]:
+            return "tight-narrow-depth24"          # finding F7
+        if bpp == 32 and be and (rs % 8 or gs % 8 or bs % 8):
+            return "tight-be-unaligned"            # finding F8
     if enc not in ("zrle", "zywrle"):
         return "-"
     if bpp == 16 and gmax <= 31 and not VARIANT[0]:
@@ -325,14 +347,42 @@ SIZES_WIDE = [(8189, 2, 4), (8190, 2, 4), (8192, 3, 4), (8193, 2, 4), (16384, 2,
               (32756, 3, 1), (32757, 2, 1)]
 
 
-def case_lines(k, label, w, h, sbypp, cfmt, enc, levels, updates, corre=None, sfmt=None, econ=0):
+def pad_pixels(rng, px, sf, mode):
+    """put non-zero bits OUTSIDE the colour masks of the server format into the framebuffer pixels
+    (ones: all set; colour: one random padding per colour; pixel: random per pixel)"""
+    spare = ((1 << sf.bpp) - 1) & ~sf.mask()
+    if not spare:
+        return px
+    if mode == "ones":
+        return [p | spare for p in px]
+    if mode == "colour":
+        m = {}
+        return [p | m.setdefault(p, rng.getrandbits(sf.bpp) & spare) for p in px]
+    return [p | (rng.getrandbits(sf.bpp) & spare) for p in px]
+
+
+def mask_bytes(data, f):
+    """keep the colour bits only (client format f as tuple), pixel by pixel"""
+    bpp, depth, be, tc, rmax, gmax, bmax, rs, gs, bs = f
+    n = bpp // 8
+    mask = (rmax << rs) | (gmax << gs) | (bmax << bs)
+    order = "big" if (be and n > 1) else "little"
+    out = bytearray()
+    for i in range(0, len(data) - len(data) % n, n):
+        out += (int.from_bytes(data[i:i + n], order) & mask).to_bytes(n, order)
+    return bytes(out)
+
+
+def case_lines(k, label, w, h, sbypp, cfmt, enc, levels, updates, corre=None, sfmt=None, econ=0, pad=False):
     """updates: list of (pixels, (x,y,rw,rh)); sfmt: server pixel format chosen by the application (None =
     rfbGetScreen default), econ: rfbEconomicTranslate; returns (script lines, meta)"""
     sf = sfmt if sfmt is not None else server_fmt(sbypp)
     scr_line = "screen %d %d %d" % (w, h, sbypp)
     if sfmt is not None:
         scr_line += " %d %d %d %d %d %d %d %d %d" % (sf.depth, sf.be, sf.rmax, sf.gmax, sf.bmax, sf.rs, sf.gs, sf.bs, econ)
-    L = ["case %d %s" % (k, label), "variant %d %d" % VARIANT, scr_line]
+    L = ["case %d %s" % (k, label), "variant %d %d %d" % VARIANT, scr_line]
+    if pad:
+        L.append("pad 1")        # the framebuffer carries bits outside the colour masks (ignored by both drivers)
     if cfmt is not None:
         L.append(cfmt.line())
     effc0 = (sf if cfmt is None else cfmt)
@@ -363,7 +413,7 @@ def case_lines(k, label, w, h, sbypp, cfmt, enc, levels, updates, corre=None, sf
         trs.append((tr, rect))
     effc = eff if eff.tc else BGR233
     meta = dict(w=w, h=h, sbypp=sbypp, cbypp=effc.bpp // 8, enc=enc, levels=levels, trs=trs, label=label,
-                cfmt=effc.tup(), corre=corre, updates=updates, cfmt_obj=cfmt, encs=encs_used, upd_spec=upd_spec, sfmt_obj=sfmt, econ=econ)
+                cfmt=effc.tup(), corre=corre, updates=updates, cfmt_obj=cfmt, encs=encs_used, upd_spec=upd_spec, sfmt_obj=sfmt, econ=econ, pad=pad)
     return L, meta
 
 
@@ -384,7 +434,17 @@ def gen_cases(ctx, encs):
 
     def add(label, w, h, sbypp, cfmt, enc, updates, levels=("-", "-"), corre=None, sfmt=None, econ=0):
         nonlocal k
-        cases.append(case_lines(k, label, w, h, sbypp, cfmt, enc, levels, updates, corre, sfmt, econ))
+        # generator dimension for every encoder and every case class: bits outside the colour masks of the
+        # server format (pad byte of 32 bpp, bit 15 of 555, ...) set in the framebuffer, for about a third of the
+        # cases, more often when the client keeps the server's format (no translation)
+        sf = sfmt if sfmt is not None else server_fmt(sbypp)
+        pad = False
+        if (((1 << sf.bpp) - 1) & ~sf.mask()) and rng.random() < (0.45 if cfmt is None else 0.2):
+            mode = rng.choice(["ones", "colour", "colour", "pixel"])
+            updates = [(pad_pixels(rng, u[0], sf, mode),) + tuple(u[1:]) for u in updates]
+            pad = True
+            label += ":pad-" + mode
+        cases.append(case_lines(k, label, w, h, sbypp, cfmt, enc, levels, updates, corre, sfmt, econ, pad))
         k += 1
 
     def levels_for(enc):
@@ -525,6 +585,24 @@ def gen_cases(ctx, encs):
         lv = ("-", "-") if enc != "tight" else (rng.choice(["-", "1", "9"]), "-", rng.choice(["-", "lastrect"]))
         add("sfmt:%d-%d-%d%s:e%d:%s" % (sfm.rmax, sfm.gmax, sfm.bmax, "be" if sfm.be else "", econ, enc), w, h, sbypp, fm, enc,
             [(px, pick_rect(rng, w, h))], lv, None, sfm, econ)
+    # 2i. a client that never sends SetEncodings (preferredEncoding = -1: Raw), and client formats at the
+    #     edge of what SetPixelFormat lets through: depth 24 / maxima 255 announced with 8 or 16 bits per pixel
+    #     (depth > bits-per-pixel; the server does not validate), big-endian 8-8-8 with unaligned shifts
+    for i in range(6 if quick else 60):
+        sbypp = rng.choice([1, 2, 4])
+        w, h = rng.choice(SIZES_SMALL)
+        fm = rng.choice(client_formats(rng, sbypp)) if rng.random() < 0.6 else None
+        add("default:%s" % "raw", w, h, sbypp, fm, "default", [(gen_content(rng, rng.choice(KINDS), w, h, sbypp), pick_rect(rng, w, h))])
+    if "tight" in encs:
+        EDGE = [Fmt(8, 24, 0, 1, 255, 255, 255, 0, 0, 0), Fmt(16, 24, 0, 1, 255, 255, 255, 0, 4, 8), Fmt(16, 24, 1, 1, 255, 255, 255, 8, 4, 0),
+                Fmt(32, 24, 1, 1, 255, 255, 255, 4, 12, 20), Fmt(32, 24, 0, 1, 255, 255, 255, 4, 12, 20), Fmt(32, 24, 1, 1, 255, 255, 255, 24, 16, 8)]
+        for i in range(12 if quick else 120):
+            sbypp = rng.choice([1, 2, 4])
+            w, h = rng.choice([(1, 1), (8, 4), (16, 16), (31, 9), (20, 20)])      # small: Pack24 over-reads 4 bytes per pixel
+            fm = EDGE[i % len(EDGE)]
+            kind = rng.choice(["flat", "pal2", "pal5", "noise", "hgrad"])
+            add("tight:edgefmt:%d-%d%s" % (fm.bpp, fm.rs, "be" if fm.be else ""), w, h, sbypp, fm, "tight",
+                [(gen_content(rng, kind, w, h, sbypp), (0, 0, w, h))], (rng.choice(["-", "1"]), "-", "-"))
     # 2c. TightPng (SAMPLED: PNG container decoded by libpng in the harness, exact comparison)
     for i in range(6 if quick else 60):
         w, h = rng.choice(SIZES_SMALL)
@@ -630,7 +708,8 @@ def precheck_case(meta, obs_lines):
     items = rectangles to decode (enc, bypp, w, h, payload), where = (update index, x, y, w, h, enc)"""
     ups = [l for l in obs_lines if l.startswith("upd")]
     feats = dict(enc=meta["enc"], sbpp=meta["sbypp"] * 8, cbpp=meta["cbypp"] * 8, w=meta["w"], h=meta["h"],
-                 fmt_class=fmt_class("zrle" if "zrle" in meta.get("encs", [meta["enc"]]) else meta["enc"], meta["cfmt"]),
+                 fmt_class=fmt_class("zrle" if "zrle" in meta.get("encs", [meta["enc"]]) else
+                                     ("tight" if "tight" in meta.get("encs", [meta["enc"]]) else meta["enc"]), meta["cfmt"]),
                  line_exceeds_update_buf=(meta["w"] * meta["cbypp"] > 32768),
                  tight_level0=any(sp[0] == "tight" and len(sp) > 1 and sp[1] == "0" and (len(sp) < 3 or sp[2] == "-")
                                   for sp in meta.get("upd_spec", [(meta["enc"],) + tuple(meta["levels"])])))
@@ -719,6 +798,10 @@ def compare_case(meta, feats, where, dec):
     for (ui, x, y, w, h, enc), got in zip(where, dec):
         tr = meta["trs"][ui][0]
         want = crop_bytes(tr, meta["w"], meta["cbypp"], x, y, w, h)
+        if got is not None and meta.get("pad"):
+            # padding bits are not part of the colour: an untranslated client receives them or not
+            # (CPIXEL / TPIXEL drop a byte); the pixels are compared on the colour bits
+            got, want = mask_bytes(got, meta["cfmt"]), mask_bytes(want, meta["cfmt"])
         if got is None:
             feats["what"] = "undecodable"
             feats["rect_enc"] = enc
@@ -757,13 +840,12 @@ def build_model():
 
 def outputs_differ(co, mo):
     """exact comparison of two driver outputs modulo what the model does not predict: JPEG image bytes
-    (only header + control byte are compared) and updates answered with model-error"""
+    (only header + control byte are compared)"""
     a, b = vlib.split_cases(co), vlib.split_cases(mo)
     if len(a) != len(b):
         return True
     for (ha, la), (hb, lb) in zip(a, b):
-        keep = [k for k in range(max(len(la), len(lb))) if not (k < len(lb) and lb[k] == "upd model-error")]
-        if vlib.first_diff([norm_jpeg(la[k]) for k in keep if k < len(la)], [norm_jpeg(lb[k]) for k in keep if k < len(lb)]) is not None:
+        if vlib.first_diff([norm_jpeg(l) for l in la], [norm_jpeg(l) for l in lb]) is not None:
             return True
     return False
 
@@ -788,7 +870,7 @@ def shrink_case(case, fails):
             px, rect = up[0], up[1]
             sp = meta["upd_spec"][ui]
             c = case_lines(0, meta["label"], meta["w"], meta["h"], meta["sbypp"], meta["cfmt_obj"], sp[0],
-                           tuple(sp[1:]), [(px, rect)], meta["corre"], meta.get("sfmt_obj"), meta.get("econ", 0))
+                           tuple(sp[1:]), [(px, rect)], meta["corre"], meta.get("sfmt_obj"), meta.get("econ", 0), meta.get("pad", False))
             if fails(c):
                 return shrink_case(c, fails)
         # the failure needs the history: drop earlier updates while it still fails
@@ -798,7 +880,7 @@ def shrink_case(case, fails):
         def build(us, sps):
             full = [(u[0], u[1], " ".join(sp)) for u, sp in zip(us, sps)]
             return case_lines(0, meta["label"], meta["w"], meta["h"], meta["sbypp"], meta["cfmt_obj"], sps[0][0],
-                              tuple(sps[0][1:]), [(full[0][0], full[0][1])] + full[1:], meta["corre"], meta.get("sfmt_obj"), meta.get("econ", 0))
+                              tuple(sps[0][1:]), [(full[0][0], full[0][1])] + full[1:], meta["corre"], meta.get("sfmt_obj"), meta.get("econ", 0), meta.get("pad", False))
         changed = True
         while changed and len(ups) > 2:
             changed = False
@@ -820,7 +902,7 @@ def shrink_case(case, fails):
                 continue
             npx = [px[y * w + x] for y in range(nh) for x in range(nw)]
             c = case_lines(0, meta["label"], nw, nh, meta["sbypp"], meta["cfmt_obj"], meta["enc"], meta["levels"],
-                           [(npx, (0, 0, nw, nh))], meta["corre"], meta.get("sfmt_obj"), meta.get("econ", 0))
+                           [(npx, (0, 0, nw, nh))], meta["corre"], meta.get("sfmt_obj"), meta.get("econ", 0), meta.get("pad", False))
             budget -= 1
             if fails(c):
                 cur, px, w, h, changed = c, npx, nw, nh, True
@@ -856,11 +938,20 @@ def check(ctx):
         all_items += items
         if all(e in MODELLED for e in meta.get("encs", [meta["enc"]])):
             if "tight" in meta.get("encs", [meta["enc"]]):
-                # the LastRect solid-area search of Tight is not modelled: the model answers model-error
-                keep = [k for k in range(max(len(il), len(ml))) if not (k < len(ml) and ml[k] == "upd model-error")]
-                d = vlib.first_diff([norm_jpeg(il[k]) for k in keep if k < len(il)], [norm_jpeg(ml[k]) for k in keep if k < len(ml)])
+                # a model that answers "upd model-error" (None / Err of the mirror functions: totality of zrle_tile and
+                # tight_subrect is not proved) differs from the implementation's line and is reported
+                d = vlib.first_diff([norm_jpeg(l) for l in il], [norm_jpeg(l) for l in ml])
             else:
                 d = vlib.first_diff(il, ml)
+            if d is not None and feats.get("fmt_class") == "tight-narrow-depth24" and not VARIANT[2]:
+                # finding F7: Pack24 reads 4-byte pixels from a buffer of 1- or 2-byte pixels; the bytes sent for
+                # fill / full-colour subrectangles are whatever follows in memory, not a function of the input
+                # (mono / indexed subrectangles switch on bitsPerPixel and are right); nothing to mirror
+                d = None
+            if d is not None and feats.get("fmt_class") == "tight-be-unaligned" and pack24_swaps():
+                # the repaired Pack24 of notes/fix_C01_4.diff is not mirrored (the model keeps "24 - shift");
+                # for this class of formats the spec decoder alone decides
+                d = None
             if d is not None:
                 mismatches.append((idx, d))
         for l in il:
@@ -1053,7 +1144,7 @@ def replay(ctx, path):
     VARIANT = source_variant()
     body = txt.split("script:\n", 1)[1].split("\n\n", 1)[0]
     lines = [l for l in body.split("\n") if l.strip()]
-    lines = [("variant %d %d" % VARIANT) if l.startswith("variant ") else l for l in lines]
+    lines = [("variant %d %d %d" % VARIANT) if l.startswith("variant ") else l for l in lines]
     cexe = vlib.build_harness("vdrv_enc", ["vdrv_enc.c"], extra_cflags=["-I", os.path.join(vlib.REPO, "src", "common")])
     vlib.prove(ctx, PROP_FILE, [EXTRACT])
     mexe = build_model()
@@ -1079,6 +1170,8 @@ def meta_from_lines(lines):
     tr = None
     for l in lines:
         p = l.split(" ")
+        if p[0] == "pad":
+            meta["pad"] = True
         if p[0] == "screen":
             meta["w"], meta["h"], meta["sbypp"] = int(p[1]), int(p[2]), int(p[3])
             meta["cbypp"] = meta["sbypp"]
